@@ -56,13 +56,14 @@ Definition ref_state (ops : list lop) : lstate :=
 Definition row := (Z * Z)%type.
 Definition rid (r : row) := fst r.
 
-Inductive cond := CAll | CMod (m r : Z) | CGt (k : Z) | CNone.
+Inductive cond := CAll | CMod (m r : Z) | CGt (k : Z) | CNone | COrModGt (m r k : Z).
 Definition cond_holds (c : cond) (r : row) : bool :=
   match c with
   | CAll => true
   | CMod m r0 => (rid r) mod m =? r0
   | CGt k => k <? rid r
   | CNone => false
+  | COrModGt m r0 k => ((rid r) mod m =? r0) || (k <? rid r)   (* Where(..).Or(..) *)
   end.
 
 Inductive ordering := OrdNone | OrdIdAsc | OrdIdDesc | OrdVAsc.
